@@ -38,7 +38,7 @@ man = {
     "setup_cmd": "./check --setup",
     "hooks": {
         "guard": "verif",
-        "enable": "go build -tags verif (Go build tag; hook files are add-only pkg/**/verif_export_*.go with //go:build verif)",
+        "enable": "go build -tags verif (Go build tag). Hook files are add-only **/verif_export_*.go with //go:build verif (thin exported wrappers), plus package pkg/internal/verifhook (on.go //go:build verif, off.go //go:build !verif: Point(name) is a no-op without the tag) whose four Point(...) yield-point calls were ADDED (no line rewritten or deleted) to the deduplicators of pkg/tbtc and pkg/beacon/event",
         "baseline_off_cmd": "cd /repo && GOFLAGS=-mod=mod GOPROXY=off GOSUMDB=off GOTOOLCHAIN=local go test -vet=off -count=1 -timeout 25m ./...",
         "source_commits": hooks,
         "add_only": True,
